@@ -11,14 +11,20 @@ import MysyncModel.App.Repair
 import MysyncProofs.Lemmas.RepairLemmas
 
 namespace C10
-open NS Repair
+open NS Repair RepairLemmas
 
 /-- never points a server at itself, and re-points only to the recorded master -/
 theorem repoint_only_to_master (cfg : Cfg) (host : String) (st : NodeState) (master : String) (rs : Option RepairState)
     (now : Int) (c p : Bool) (hne : host ≠ master) (to : String)
     (h : Act.changeMaster to ∈ (repairSlave cfg host st master rs now c p).1 ∨ Act.resetSlaveAlgorithm to ∈ (repairSlave cfg host st master rs now c p).1) :
     to = master ∧ to ≠ host := by
-  sorry
+  have : to = master := by
+    rcases h with h | h
+    · exact repairSlave_changeMaster_mem cfg host st master rs now c p to h
+    · exact (tryRepair_reset_mem cfg rs now master c to
+        (repairSlave_reset_mem cfg host st master rs now c p to h).2.2).1
+  subst this
+  exact ⟨rfl, fun e => hne e.symm⟩
 
 /-- a replica's replication configuration is reset only if aggressive repair is enabled, the replica
 is in (non-permanent) replication error, the gentler method is exhausted, the reset attempts are not,
@@ -28,7 +34,9 @@ theorem reset_only_if_entitled (cfg : Cfg) (host : String) (st : NodeState) (mas
     (h : Act.resetSlaveAlgorithm to ∈ (repairSlave cfg host st master rs now c p).1) :
     cfg.aggressive = true ∧ st.permBroken = false ∧ (∃ sl, st.slave = some sl ∧ sl.state = .error) ∧
     ∃ s, rs = some s ∧ cooldownPassed cfg s now = true ∧ s.startCount ≥ cfg.maxAttempts ∧ s.resetCount < cfg.maxAttempts := by
-  sorry
+  obtain ⟨hp, hsl, ht⟩ := repairSlave_reset_mem cfg host st master rs now c p to h
+  obtain ⟨_, ha, hs⟩ := tryRepair_reset_mem cfg rs now master c to ht
+  exact ⟨ha, hp, hsl, hs⟩
 
 /-- permanently broken replication is left alone -/
 theorem perm_broken_untouched (cfg : Cfg) (host : String) (st : NodeState) (master : String) (rs : Option RepairState)
@@ -36,7 +44,12 @@ theorem perm_broken_untouched (cfg : Cfg) (host : String) (st : NodeState) (mast
     (hm : st.isMaster = false) (hc : st.isCascade = false) :
     (repairSlave cfg host st master rs now c p).2 = rs ∧
     ∀ to, Act.resetSlaveAlgorithm to ∉ (repairSlave cfg host st master rs now c p).1 := by
-  sorry
+  refine ⟨?_, fun to hmem => ?_⟩
+  · rw [repairSlave_snd]
+    simp [hm, hc, hs, he, hp]
+  · have := (repairSlave_reset_mem cfg host st master rs now c p to hmem).1
+    rw [hp] at this
+    cases this
 
 /-- attempt limit: the per-method counters never pass the limit, each attempt is counted once -/
 theorem attempts_bounded (cfg : Cfg) (s : RepairState) (now : Int) (master : String) (c : Bool)
@@ -44,19 +57,46 @@ theorem attempts_bounded (cfg : Cfg) (s : RepairState) (now : Int) (master : Str
     ∀ s', (tryRepair cfg (some s) now master c).2 = some s' →
       s'.startCount ≤ cfg.maxAttempts ∧ s'.resetCount ≤ cfg.maxAttempts ∧
       (s'.startCount + s'.resetCount = s.startCount + s.resetCount + (tryRepair cfg (some s) now master c).1.length) := by
-  sorry
+  intro s' hs'
+  rcases tryRepair_some_cases cfg s now master c with ⟨e, _⟩ | ⟨e, _, _, hlt⟩ | ⟨e, _, _, _, _, hlt⟩
+  · rw [e] at hs' ⊢
+    cases hs'
+    simp only [List.length_nil]
+    omega
+  · rw [e] at hs' ⊢
+    cases hs'
+    simp only [List.length_cons, List.length_nil]
+    omega
+  · rw [e] at hs' ⊢
+    cases hs'
+    simp only [List.length_cons, List.length_nil]
+    omega
 
 /-- cooldown: after an attempt at `now`, no further attempt before `now + cooldown` has passed -/
 theorem cooldown_respected (cfg : Cfg) (s : RepairState) (now now' : Int) (master : String) (c c' : Bool) (s' : RepairState)
     (hc : 0 ≤ cfg.cooldown)
     (h1 : (tryRepair cfg (some s) now master c).1 ≠ []) (hs : (tryRepair cfg (some s) now master c).2 = some s')
     (h2 : (tryRepair cfg (some s') now' master c').1 ≠ []) : now' - now > cfg.cooldown := by
-  sorry
+  have hla : s'.lastAttempt = now := by
+    rcases tryRepair_some_cases cfg s now master c with ⟨e, _⟩ | ⟨e, _⟩ | ⟨e, _⟩
+    · rw [e] at h1; exact absurd rfl h1
+    · rw [e] at hs; cases hs; rfl
+    · rw [e] at hs; cases hs; rfl
+  have hcd : cooldownPassed cfg s' now' = true := by
+    rcases tryRepair_some_cases cfg s' now' master c' with ⟨e, _⟩ | ⟨_, h, _⟩ | ⟨_, h, _⟩
+    · rw [e] at h2; exact absurd rfl h2
+    · exact h
+    · exact h
+  simp only [cooldownPassed, decide_eq_true_eq] at hcd
+  omega
 
 /-- a fresh repair state never acts in the iteration that creates it -/
 theorem fresh_state_waits (cfg : Cfg) (now : Int) (master : String) (c : Bool) :
     ∀ a ∈ (tryRepair cfg none now master c).1, a = Act.createRepairState := by
-  sorry
+  intro a ha
+  rw [tryRepair_none] at ha
+  cases c <;> simp at ha
+  exact ha
 
 /-- stale master: made read-only, taken offline with semi-sync off, re-pointed to the recorded master
 and marked for recovery, in that order, in one pass -/
@@ -64,13 +104,15 @@ theorem stale_master_pass (cfg : Cfg) (host : String) (st : NodeState) (master :
     (now : Int) (c p : Bool) (hm : st.isMaster = true) :
     (repairSlave cfg host st master rs now c p).1 =
       (if st.isReadOnly then [] else [Act.setReadOnly]) ++ [.setOffline, .semiSyncDisable, .changeMaster master, .setRecovery] := by
-  sorry
+  rw [repairSlave_fst]
+  simp [hm]
 
 /-- every reachable node that is not read-only receives the read-only request first -/
 theorem writable_node_made_readonly (cfg : Cfg) (host : String) (st : NodeState) (master : String) (rs : Option RepairState)
     (now : Int) (c p : Bool) (h : st.isReadOnly = false) :
     (repairSlave cfg host st master rs now c p).1.head? = some .setReadOnly := by
-  sorry
+  rw [repairSlave_fst]
+  simp [h]
 
 
 /-- attempts left for a replica in error: the ranking function of the bounded repair, for ANY attempt limit -/
@@ -81,13 +123,25 @@ def budgetLeft (cfg : Cfg) (s : RepairState) : Nat :=
 theorem attempt_uses_budget (cfg : Cfg) (s s' : RepairState) (now : Int) (master : String) (c : Bool)
     (h : (tryRepair cfg (some s) now master c).1 ≠ []) (hs : (tryRepair cfg (some s) now master c).2 = some s') :
     budgetLeft cfg s' + 1 = budgetLeft cfg s := by
-  sorry
+  rcases tryRepair_some_cases cfg s now master c with ⟨e, _⟩ | ⟨e, _, _, hlt⟩ | ⟨e, _, _, _, ha, hlt⟩
+  · rw [e] at h; exact absurd rfl h
+  · rw [e] at hs; cases hs
+    simp only [budgetLeft]
+    omega
+  · rw [e] at hs; cases hs
+    simp only [budgetLeft, ha, if_true]
+    omega
 
 /-- … and without budget nothing is attempted: at most `budgetLeft` attempts are ever made on a replica
 (by induction: `attempts_total_bounded`) -/
 theorem no_budget_no_attempt (cfg : Cfg) (s : RepairState) (now : Int) (master : String) (c : Bool)
     (h : budgetLeft cfg s = 0) : (tryRepair cfg (some s) now master c).1 = [] ∧ (tryRepair cfg (some s) now master c).2 = some s := by
-  sorry
+  rcases tryRepair_some_cases cfg s now master c with ⟨e, _⟩ | ⟨_, _, _, hlt⟩ | ⟨_, _, _, _, ha, hlt⟩
+  · rw [e]; exact ⟨rfl, rfl⟩
+  · simp only [budgetLeft] at h
+    omega
+  · simp only [budgetLeft, ha, if_true] at h
+    omega
 
 /-- run `tryRepair` at the given times, counting attempts -/
 def runTry (cfg : Cfg) (master : String) : RepairState → List Int → Nat × RepairState
@@ -100,7 +154,21 @@ def runTry (cfg : Cfg) (master : String) : RepairState → List Int → Nat × R
 
 theorem attempts_total_bounded (cfg : Cfg) (master : String) (s : RepairState) (times : List Int) :
     (runTry cfg master s times).1 ≤ budgetLeft cfg s := by
-  sorry
+  induction times generalizing s with
+  | nil => simp [runTry]
+  | cons now rest ih =>
+    rcases tryRepair_some_cases cfg s now master true with ⟨e, _⟩ | ⟨e, _⟩ | ⟨e, _⟩
+    · have := ih s
+      simp only [runTry, e, List.length_nil]
+      omega
+    · have hb := attempt_uses_budget cfg s _ now master true (by rw [e]; simp) (by rw [e])
+      have := ih { s with startCount := s.startCount + 1, lastAttempt := now }
+      simp only [runTry, e, List.length_cons, List.length_nil]
+      omega
+    · have hb := attempt_uses_budget cfg s _ now master true (by rw [e]; simp) (by rw [e])
+      have := ih { s with resetCount := s.resetCount + 1, lastAttempt := now }
+      simp only [runTry, e, List.length_cons, List.length_nil]
+      omega
 
 /-- the attempt bookkeeping seen through the finite abstraction used for convergence -/
 def budgetOf (cfg : Cfg) (rs : Option RepairState) (now : Int) : Budget :=
@@ -121,7 +189,14 @@ theorem tryRepair_refines_budget (cfg : Cfg) (rs : Option RepairState) (now : In
       | .mayStart => [.startSlave]
       | .mayReset => [.resetSlaveAlgorithm master]
       | .exhausted => [] := by
-  sorry
+  cases rs with
+  | none => simp [tryRepair_none, budgetOf]
+  | some s =>
+    rcases tryRepair_some_cases cfg s now master true with ⟨e, hcd | hs⟩ | ⟨e, hcd, hs, _⟩ | ⟨e, hcd, hs, _⟩
+    · simp [e, budgetOf, hcd]
+    · cases hcd : cooldownPassed cfg s now <;> simp [e, budgetOf, hcd, hs]
+    · simp [e, budgetOf, hcd, hs]
+    · simp [e, budgetOf, hcd, hs]
 
 /-- CONVERGENCE over the whole finite table: from every abstract per-node state, with or without
 aggressive repair, whatever the environment answers to the START REPLICA attempts, four fault-free
@@ -131,11 +206,11 @@ master, replicating from the recorded master, running) or in one of the property
 theorem repair_converges (agg c1 c2 c3 c4 : Bool) (n : Abs) :
     let r := absPass agg c4 true (absPass agg c3 true (absPass agg c2 true (absPass agg c1 true n)))
     r.canonical = true ∨ r.sink = true := by
-  sorry
+  exact settled_stable agg c4 true _ (settled_after_three agg c1 c2 c3 n)
 
 /-- … and the canonical state and the sinks are fixed points (no flapping) -/
 theorem canonical_is_stable (agg c t : Bool) (n : Abs) (h : n.canonical = true) : (absPass agg c t n).canonical = true := by
-  sorry
+  exact canonical_stable_all n (mem_allAbs n) agg c t h
 
 -- non-vacuity
 example : (absPass true false true (absPass true false true (absPass true false true
